@@ -51,11 +51,137 @@ fn loop_parked(tid: i32) -> bool {
 }
 
 pub fn run(c: &SchedCase) -> ExecOutcome {
-    match c.variant % 4 {
+    match c.variant % 6 {
         0 | 1 => run_stop(c),
         2 => run_sticky(c),
+        3 => run_wakeups(c),
         _ => run_block_on(c),
     }
+}
+
+/// bare wakeup() calls from another thread while run(None) iterates: none of them may be lost
+fn run_wakeups(c: &SchedCase) -> ExecOutcome {
+    let mut o = ExecOutcome::default();
+    let mut rng = Rng::derive(c.seed, c.case, 8);
+    let mut el: EventLoop<u64> = EventLoop::try_new().expect("loop");
+    let sig = el.get_signal();
+    let started = Arc::new(AtomicBool::new(false));
+    let returned = Arc::new(AtomicBool::new(false));
+    let loop_tid = sysx::gettid();
+    let (p, psrc) = calloop::ping::make_ping().expect("ping");
+    let st0 = started.clone();
+    el.handle().insert_source(psrc, move |_, _, _| st0.store(true, Ordering::SeqCst)).expect("insert");
+    p.ping();
+    let seed = c.seed ^ c.case;
+    let m = c.ops.max(2);
+    let pauses: Vec<u64> = (0..m).map(|_| *rng.pick(&[0u64, 0, 20, 100, 400, 1500])).collect();
+    // the per-iteration closure dawdles now and then, so that wake-ups land while no wait is in progress
+    let dawdle: Vec<u64> = (0..64).map(|_| *rng.pick(&[0u64, 0, 0, 200, 800])).collect();
+    hookrec::begin(&c.plan);
+    let mut iters: u64 = 0;
+    let mut all: Vec<Vec<Rec>> = Vec::new();
+    let mut parked_verdict = None;
+    std::thread::scope(|s| {
+        let st = started.clone();
+        let ret = returned.clone();
+        let sig2 = sig.clone();
+        let hd = s.spawn(move || {
+            hookrec::set_thread(1, seed);
+            let t0 = Instant::now();
+            while !st.load(Ordering::SeqCst) && t0.elapsed() < Duration::from_secs(5) {
+                std::thread::yield_now();
+            }
+            for (i, us) in pauses.iter().enumerate() {
+                if !cfg!(miri) && *us > 0 {
+                    std::thread::sleep(Duration::from_micros(*us));
+                }
+                hookrec::record(H_WAKEUP_BEGIN, i as u64, 0);
+                sig2.wakeup();
+                hookrec::record(H_WAKEUP_END, i as u64, 0);
+            }
+            // the last wake-up has returned: the loop must leave a wait after it. Give it time, then look
+            // at its state before ending the run.
+            if !cfg!(miri) {
+                std::thread::sleep(Duration::from_millis(60));
+            }
+            let parked = loop_parked_quick(loop_tid);
+            hookrec::record(H_QUIESCE, parked as u64, 0);
+            hookrec::record(H_STOP_BEGIN, 0, 0);
+            sig2.stop();
+            sig2.wakeup();
+            hookrec::record(H_STOP_END, 0, 0);
+            let t1 = Instant::now();
+            while !ret.load(Ordering::SeqCst) && t1.elapsed() < Duration::from_secs(5) {
+                std::thread::sleep(Duration::from_millis(1));
+            }
+            (hookrec::take_thread(), parked)
+        });
+        let r = el.run(None, &mut iters, |n| {
+            *n += 1;
+            hookrec::record(H_ITER, *n, 0);
+            let d = dawdle[(*n as usize) % dawdle.len()];
+            if d > 0 && !cfg!(miri) {
+                std::thread::sleep(Duration::from_micros(d));
+            }
+        });
+        hookrec::record(H_RUN_RETURN, r.is_err() as u64, 0);
+        returned.store(true, Ordering::SeqCst);
+        match hd.join() {
+            Ok((v, parked)) => {
+                all.push(v);
+                parked_verdict = Some(parked);
+            }
+            Err(_) => o.inconclusive.push("controller thread panicked".into()),
+        }
+    });
+    hookrec::end();
+    all.push(hookrec::take_thread());
+    drop(p);
+    let recs = hookrec::merge(all);
+    o.nontrivial = true;
+    o.ev("iterations", iters);
+    o.ev("wakeups", m as u64);
+    o.cov("bare-wakeups-during-run");
+    // every returned wakeup() is followed by a wait that ends (WaitPost) before the run was ended by the harness
+    let rescue = recs.iter().find(|r| is_h(r, H_STOP_BEGIN)).map(|r| r.seq).unwrap_or(u64::MAX);
+    let mut lost = Vec::new();
+    for wb in recs.iter().filter(|r| is_h(r, H_WAKEUP_BEGIN) && r.seq < rescue) {
+        let served = recs.iter().any(|r| r.tid == 0 && is_site(r, Site::WaitPost) && r.seq > wb.seq && r.seq < rescue);
+        // where did it land?
+        let mut ph = "wakeup:before-first-wait";
+        for r in recs.iter().filter(|r| r.tid == 0 && r.seq < wb.seq) {
+            if is_site(r, Site::WaitPre) {
+                ph = "wakeup:loop-inside-the-wait";
+            } else if is_site(r, Site::WaitPost) {
+                ph = "wakeup:no-wait-in-progress";
+            }
+        }
+        o.cov(ph);
+        if !served {
+            lost.push(wb.a);
+        }
+    }
+    if !lost.is_empty() && parked_verdict == Some(true) {
+        o.alarm("wakeup_sticky", "wakeup-lost-loop-parked-in-epoll_wait", format!("wakeup() calls {:?} had returned, no wait ended after them, and the loop thread was parked in epoll_wait", lost));
+    } else if !lost.is_empty() {
+        o.inconclusive.push(format!("wakeup() calls {:?} not followed by a finished wait, but the loop thread was not parked", lost));
+    }
+    o
+}
+
+/// three samples over 150 ms
+fn loop_parked_quick(tid: i32) -> bool {
+    if cfg!(miri) {
+        return false;
+    }
+    let mut n = 0;
+    for _ in 0..3 {
+        if sysx::in_epoll_wait(tid) {
+            n += 1;
+        }
+        std::thread::sleep(Duration::from_millis(50));
+    }
+    n == 3
 }
 
 /// wakeup() before the wait starts is not lost (single-threaded form)
@@ -297,6 +423,15 @@ fn run_block_on(c: &SchedCase) -> ExecOutcome {
             let t1 = Instant::now();
             let mut verdict = None;
             let mut extra = 0u64;
+            // before helping the future along with further wakes, give the scripted ones time to be served
+            // and note whether the loop sits in its wait meanwhile (offline: was every scripted wake polled?)
+            if !stop_instead && !cfg!(miri) {
+                std::thread::sleep(Duration::from_millis(80));
+                if !ret.load(Ordering::SeqCst) {
+                    let parked = loop_parked_quick(loop_tid);
+                    hookrec::record(H_QUIESCE, parked as u64, 0);
+                }
+            }
             while !ret.load(Ordering::SeqCst) {
                 if !stop_instead && t1.elapsed() > Duration::from_millis(20 * (extra + 1)) && extra < 100 {
                     // keep waking until the future has been polled often enough to complete
@@ -375,10 +510,13 @@ fn run_block_on(c: &SchedCase) -> ExecOutcome {
             }
             (Some(_), Some(_)) => {}
         }
-        // every returned wake is followed by a poll (unless the future finished or the loop was stopped)
-        for wb in recs.iter().filter(|r| is_h(r, H_WAKE_BEGIN)) {
+        // every returned wake is followed by a poll (unless the future finished or the loop was stopped);
+        // polls that only happened because the harness later issued further wakes do not count
+        let first_extra = recs.iter().filter(|r| is_h(r, H_WAKE_BEGIN) && (r.b >> 16) == 99).map(|r| r.seq).min().unwrap_or(u64::MAX);
+        let parked_before_extra = recs.iter().any(|r| is_h(r, H_QUIESCE) && r.a == 1);
+        for wb in recs.iter().filter(|r| is_h(r, H_WAKE_BEGIN) && (r.b >> 16) != 99) {
             let Some(we) = recs.iter().find(|r| is_h(r, H_WAKE_END) && r.b == wb.b) else { continue };
-            let polled_after = recs.iter().any(|r| is_h(r, H_POLL) && r.seq > wb.seq);
+            let polled_after = recs.iter().any(|r| is_h(r, H_POLL) && r.seq > wb.seq && (r.seq < first_extra || !parked_before_extra));
             let finished = ready.map(|r| r.seq < we.seq).unwrap_or(false);
             let stopped = stop_begin.is_some();
             if !polled_after && !finished && !stopped {
